@@ -41,4 +41,34 @@ def dset : List (String × R) → String → R → List (String × R)
   | [], k, v => [(k, v)]
   | (a, x) :: rest, k, v => if a = k then (a, v) :: rest else (a, x) :: dset rest k v
 
+/-! ### numeric forms of a coefficient value
+
+A value handed to the alias code is a number in the CALLER'S type.  `float(v)` reads its real value; `-v`
+negates it in that type: exact for Python int/float/bool and IEEE floats, wrapping modulo 2^bits for unsigned
+NumPy/torch integers (`-np.uint16(300) = 65236`), and fixed at the minimum for signed ones (`-np.int8(-128) = -128`). -/
+
+inductive NumTy
+  | exact
+  | unsigned (bits : Nat)
+  | signed (bits : Nat)
+  deriving DecidableEq, Repr
+
+structure TVal (R : Type) where
+  x : R
+  ty : NumTy
+
+namespace TVal
+def eqb (a b : R) : Bool := Num.leb a b && Num.leb b a
+
+/-- `float(v)` -/
+def toFloat (v : TVal R) : R := v.x
+
+/-- `-v` in the value's own type -/
+def neg (v : TVal R) : TVal R :=
+  match v.ty with
+  | .exact => ⟨-v.x, v.ty⟩
+  | .unsigned b => ⟨if eqb v.x Num.zero then v.x else Num.ofNat (2 ^ b) - v.x, v.ty⟩
+  | .signed b => ⟨if eqb v.x (-(Num.ofNat (2 ^ (b - 1)))) then v.x else -v.x, v.ty⟩
+end TVal
+
 end QuantemModel.Aberration
